@@ -86,6 +86,8 @@ def json_value(v, fl, voc):
         return {"$": n, "type": "xsd:int"}
     if t == "float":
         x = voc.value("float", v["v"])
+        if fl.get("float") == "intnum" and x == int(x) and abs(x) < 2 ** 53:
+            return {"$": int(x), "type": "xsd:double"}      # a JSON number without fraction, typed double
         return {"$": repr(x), "type": "xsd:double"} if fl.get("float") == "typedstr" else {"$": x, "type": "xsd:double"}
     if t == "bool":
         b = voc.value("bool", v["v"])
@@ -94,6 +96,8 @@ def json_value(v, fl, voc):
             return {"$": b, "type": "xsd:boolean"}
         if sp == "typedstr":
             return {"$": "true" if b else "false", "type": "xsd:boolean"}
+        if sp == "typednum":
+            return {"$": 1 if b else 0, "type": "xsd:boolean"}
         return b
     if t == "dt":
         return {"$": voc.value("dt", v["v"]).isoformat(), "type": "xsd:dateTime"}
@@ -226,7 +230,15 @@ def xml_record(r, fl, voc):
                 name = XSUB[a["v"]["u"][1]][1]
                 attrs.remove(a)
                 break
-    out = ["<prov:%s%s>" % (name, ' prov:id="%s"' % qname(r["id"]) if r["id"] else "")]
+    eltype = ""
+    if fl.get("eltype"):
+        # one (non-subtype) prov:type qualified name as xsi:type on the record element itself
+        for a in attrs:
+            if a["a"] == ["prov#", "type"] and a["v"]["t"] == "qn" and a["v"]["u"][0] != "prov#":
+                eltype = ' xsi:type="%s"' % qname(a["v"]["u"])
+                attrs.remove(a)
+                break
+    out = ["<prov:%s%s%s>" % (name, ' prov:id="%s"' % qname(r["id"]) if r["id"] else "", eltype)]
 
     def rank(a):
         au = a["a"]
